@@ -104,6 +104,24 @@ def eval_set(case):
         bad('delegations/decode-not-repeatable', f'{type(e).__name__}: {e}')
     if describe(ds) != want:
         bad('delegations/encode-mutates', 'encoding changed the object')
+    # history: after an encoding, a delegation is given other details and the set is encoded again - the second text
+    # carries the new details (on a set built afresh, so that the guards below see the original)
+    try:
+        ds2 = build_set(t, members)
+        ds2.to_json()
+        changed = None
+        for did, (f, pool, di) in members:
+            if di is not None:
+                ds2.delegations[did].set_details(mk_details(t, (di + 1) % NDET))
+                changed = (did, details_fields(mk_details(t, (di + 1) % NDET)))
+                break
+        if changed is not None:
+            back2 = Delegations.from_json(json_str=ds2.to_json(), atype=T[t])
+            got2 = details_fields(back2.delegations[changed[0]].get_details()) if back2 is not None else None
+            if got2 != changed[1]:
+                bad('delegations/second-encoding-stale', f'{changed[0]} was given details {changed[1]} after a first encoding; the second encoding decodes to {got2}')
+    except Exception as e:
+        bad(f'delegations/second-encoding-raises/{type(e).__name__}', str(e))
     # decoding as the other type never yields this type's details
     other = 'C' if t == 'L' else 'L'
     try:
